@@ -40,6 +40,10 @@ def jobs(tier):
     for w in range(len(TRICKY)):
         out.append(CH(name=f"c16_tricky_{w}", base="c16_tricky", func=f"{H}:c16_tricky", params=[("entry", "int")], pre=["0 <= entry <= 2"], fixed={"which": w}, timeout=300,
                       twin=False, functions=F + ["as_integer", "generate_jaqal_program"], note=f"unusual concrete text {TRICKY[w][:40]!r}...: result, JaqalError or ImportError only"))
+    from ..jobs import SMT
+    out.append(SMT(name="lex_token_actions", func="vf.smt.lexer:q_token_actions", timeout=600, functions=["JaqalLexer.INT", "JaqalLexer.NUMBER", "JaqalLexer.BININT"],
+                   note="E2: for token texts of any length, the int()/float() conversion in each token action either cannot raise on its token language "
+                        "(CPython contract incl. the integer digit limit) or is guarded by a handler raising JaqalParseError"))
     for sel in range(len(POOL)):
         for order in ((0, 1) if (not q or sel < 3) else (0,)):
             out.append(CH(name=f"c16_history_{sel}_{order}", base="c16_history", func=f"{H}:c16_history", params=[("s", "str")], pre=[f"len(s) <= {n}"],
